@@ -32,4 +32,12 @@ RECURSIVE Walks(_, _, _, _, _)
 Walks(live, N, v, w, d) == IF d = 0 THEN (IF v = w THEN 1 ELSE 0)
                            ELSE FoldSet(LAMBDA j, a : a + Walks(live, N, Succ(N, v, j), w, d - 1), 0, live[v])
 SortedSeq(s) == SortSeq(s, <)
+\* ---- argument validation of the public queries (documented behaviour; conformance tier)
+\* obtain_leaf_vertices: exactly one of accessor / latter map must be given
+LeafArgsOutcome(hasAcc, hasLm) == IF hasAcc /\ hasLm THEN "ValueError" ELSE IF ~hasAcc /\ ~hasLm THEN "ValueError" ELSE "ok"
+\* accessor_to_adjacency_matrix: MemoryError at or beyond 4^maximum_length vertices, ValueError for a malformed accessor
+\* (not 4 columns, an entry below -1 or beyond the last vertex)
+MatrixArgsOutcome(nrows, ncols, minEntry, maxEntry, maxLen) ==
+  IF nrows >= 4^maxLen THEN "MemoryError"
+  ELSE IF ncols # 4 \/ minEntry < -1 \/ maxEntry > nrows - 1 THEN "ValueError" ELSE "ok"
 =============================================================================
